@@ -371,6 +371,23 @@ const char* const XSL_IMPORT =
     "<xsl:template match=\"item[@g='x']\"><hi><xsl:apply-imports/></hi></xsl:template>"
     "</xsl:stylesheet>";
 
+// an imported module that fails: with an XSLT error after some of it has been processed, and with malformed XML
+const char* const EXT_BAD_XSL =
+    "<xsl:stylesheet version=\"1.0\" xmlns:xsl=\"http://www.w3.org/1999/XSL/Transform\"><xsl:key name=\"ik\" match=\"item\" use=\"@g\"/>"
+    "<xsl:template name=\"imported\"><ok/></xsl:template><xsl:template match=\"item\"><xsl:value-of select=\"count(//item) + \"/></xsl:template></xsl:stylesheet>";
+const char* const EXT_MALFORMED_XSL =
+    "<xsl:stylesheet version=\"1.0\" xmlns:xsl=\"http://www.w3.org/1999/XSL/Transform\"><xsl:template name=\"imported\"><ok></xsl:template></xsl:stylesheet>";
+
+const char* const XSL_IMPORT_BAD =
+    XSL_HEAD ">" "<xsl:import href=\"bad.xsl\"/>" XSL_OUT
+    "<xsl:template match=\"/\"><out><xsl:call-template name=\"imported\"/></out></xsl:template>"
+    "</xsl:stylesheet>";
+
+const char* const XSL_IMPORT_MALFORMED =
+    XSL_HEAD ">" "<xsl:import href=\"ext.xsl\"/><xsl:import href=\"mal.xsl\"/>" XSL_OUT
+    "<xsl:template match=\"/\"><out><xsl:call-template name=\"imported\"/></out></xsl:template>"
+    "</xsl:stylesheet>";
+
 const char* const XSL_HTML =
     XSL_HEAD ">" "<xsl:output method=\"html\" indent=\"yes\"/>"
     "<xsl:template match=\"/\"><html><head><title>t</title></head><body><xsl:for-each select=\"//item\"><p class=\"{@g}\"><xsl:value-of select=\".\"/><br/></p></xsl:for-each>"
@@ -467,6 +484,8 @@ xercesc::InputSource* MemResolver::resolveEntity(const XMLCh* const, const XMLCh
     const char* text = 0;
     if (s.size() >= 7 && s.compare(s.size() - 7, 7, "ext.xml") == 0) text = EXT_XML;
     else if (s.size() >= 7 && s.compare(s.size() - 7, 7, "ext.xsl") == 0) text = EXT_XSL;
+    else if (s.size() >= 7 && s.compare(s.size() - 7, 7, "bad.xsl") == 0) text = EXT_BAD_XSL;
+    else if (s.size() >= 7 && s.compare(s.size() - 7, 7, "mal.xsl") == 0) text = EXT_MALFORMED_XSL;
     if (text == 0) return 0;
     // adopted by the parser; if the library loses it on a failure path that is a leak outside the manager
     return new xercesc::MemBufInputSource((const XMLByte*)text, strlen(text), systemId, false);
@@ -563,6 +582,8 @@ void scTrHtmlDefault(Ctx& c)    { streamTransform(c, "transform", XSL_HTML_DEFAU
 void scTrTextLatin1(Ctx& c)     { streamTransform(c, "transform", XSL_TEXT_LATIN1, DOC); }
 void scTrXmlUtf16(Ctx& c)       { streamTransform(c, "transform", XSL_XML_UTF16, DOC); }
 void scTrUnknownEncoding(Ctx& c){ streamTransform(c, "transform", XSL_XML_UNKNOWN_ENCODING, DOC); }
+void scImportBad(Ctx& c)        { const XalanCompiledStylesheet* cs = 0; compile(c, "compile", XSL_IMPORT_BAD, cs); streamTransform(c, "transform", XSL_KEY, DOC); }
+void scImportMalformed(Ctx& c)  { streamTransform(c, "transform", XSL_IMPORT_MALFORMED, DOC); streamTransform(c, "transformAfter", XSL_IMPORT, DOC); }
 void scTrSourceErr(Ctx& c)      { streamTransform(c, "transform", XSL_KEY, DOC_BAD); }
 void scFailTerminate(Ctx& c)    { streamTransform(c, "transform", XSL_FAIL_TERMINATE, DOC); }
 void scFailKey(Ctx& c)          { streamTransform(c, "transform", XSL_FAIL_KEY, DOC); }
@@ -640,6 +661,8 @@ const Scen kScens[] = {
     { "tr_text_latin1",     scTrTextLatin1,     false, false },
     { "tr_xml_utf16",       scTrXmlUtf16,       false, false },
     { "tr_unknown_encoding", scTrUnknownEncoding, false, false },
+    { "compile_import_err", scImportBad,        false, false },
+    { "tr_import_malformed", scImportMalformed, false, false },
     { "tr_source_err",      scTrSourceErr,      false, false },
     { "tr_xerces_dom",      scTrXercesDom,      false, false },
     { "fail_terminate",     scFailTerminate,    true,  true  },
